@@ -89,6 +89,8 @@ __CPROVER_requires(count[0] == NNEW && start[0] == IN_start0 && IN_start0 >= 0 &
 __CPROVER_requires(g_pack_calls == 0 && ncp->maxPutReqID == IN_maxid)
 __CPROVER_assigns(ncp->put_lead_list != NULL: __CPROVER_object_whole(ncp->put_lead_list))
 __CPROVER_assigns(ncp->put_list != NULL: __CPROVER_object_whole(ncp->put_list))
+/* the queues grow by reallocation when a granule is full */
+__CPROVER_frees(ncp->put_lead_list, ncp->put_list)
 __CPROVER_assigns(*reqid, __CPROVER_object_whole(ncp), g_pack_calls, g_pack_ret, g_pack_buf, g_pack_xbuf, g_addrec_calls,
                   __CPROVER_object_whole(buf), GH_TYPES)
 #define ACC (g_pack_ret == NC_NOERR || g_pack_ret == NC_ERANGE)
